@@ -124,6 +124,8 @@ pub enum ScriptSpec {
   P2wpkh(u16),
   /// one of a small pool of scripts reused across outputs
   Pool(u8),
+  /// k-th pre-registered script of simulated wallet w (0 = "ord", 1 = "buyer")
+  Wallet(u8, u16),
   Empty,
   /// OP_RETURN followed by a push of these bytes (no push if empty)
   OpReturn(#[serde(with = "hexbytes")] Vec<u8>),
@@ -330,6 +332,9 @@ pub struct CoinbaseSpec {
 pub struct BlockSpec {
   pub txs: Vec<TxSpec>,
   pub coinbase: CoinbaseSpec,
+  /// include the broadcast-but-unmined transactions first (tier 3)
+  #[serde(default)]
+  pub include_mempool: bool,
 }
 
 // ---------------------------------------------------------------------- faults
@@ -408,7 +413,48 @@ pub struct UpdateSpec {
 }
 
 #[derive(Clone, Debug, PartialEq, Eq, Serialize, Deserialize)]
+pub enum AmountSel {
+  /// base units, decimal string
+  Exact(String),
+  /// per-mille of the wallet's balance of that rune
+  Permille(u32),
+  Zero,
+  /// the whole wallet balance
+  Full,
+  /// more than the wallet has
+  FullPlus(u32),
+}
+
+#[derive(Clone, Debug, PartialEq, Eq, Serialize, Deserialize)]
+pub struct SplitOut {
+  pub to: u16,
+  pub value: Option<u64>,
+  pub runes: Vec<(u32, AmountSel)>,
+}
+
+/// A wallet command, resolved against the chain state at execution time
+/// (runes and recipients are selectors).
+#[derive(Clone, Debug, PartialEq, Eq, Serialize, Deserialize)]
+pub enum WalletCmd {
+  SendBtc { sats: u64, to: u16, fee_rate: u32 },
+  SendRune {
+    rune: u32,
+    amount: AmountSel,
+    to: u16,
+    fee_rate: u32,
+    postage: Option<u64>,
+  },
+  BurnRune { rune: u32, amount: AmountSel, fee_rate: u32 },
+  Mint { rune: u32, fee_rate: u32 },
+  Split { outputs: Vec<SplitOut>, fee_rate: u32 },
+}
+
+#[derive(Clone, Debug, PartialEq, Eq, Serialize, Deserialize)]
 pub enum Op {
+  /// run a wallet command against the simulated node and the in-process explorer
+  Wallet(WalletCmd),
+  /// lock the k-th unspent output of the wallet on the node beforehand
+  WalletLock(u32),
   Mine(Vec<BlockSpec>),
   Reorg { depth: u32, blocks: Vec<BlockSpec> },
   Update(UpdateSpec),
